@@ -1,12 +1,15 @@
-(* C09 part (A): variable declarations, parameters, global declarations, the program; then the three
-   theorems behind Props/C09.v and Props/C11.v for comment-free programs:
+(* C09 part (A): variable declarations, parameters, global declarations, the program - with comments in leading position
+   (doc comments of declarations, variable declarations and parameters, leading comments of statements); then the
+   theorems behind Props/C09.v and Props/C11.v:
+     [structure_lead] / [tokens_lead]  the same two statements for programs with comments in leading position only
+   and for comment-free programs:
      [structure]  fmt_program prints exactly the program's tokens (as Display spells them) woven with admissible gaps
      [tokens]     the printed text lexes back to the program's kinds and values
      [idempotent_comment_free]  formatting the printed text again answers null *)
 From Coq Require Import String Lia PeanoNat.
 From Spl Require Import Model.Format Model.Lexer Spec.Grammar Proofs.LexerProofs Proofs.RenderProofs Proofs.PipelineText
   Proofs.FormatProofs Proofs.FormatStructText Proofs.FormatStructTok Proofs.FormatStructExpr Proofs.FormatStructStmt.
-From Spl Require Proofs.GrammarProg.
+From Spl Require Proofs.GrammarProg Spec.LexSpec Proofs.LexConformOne.
 Import ListNotations.
 Local Open Scope nat_scope.
 
@@ -23,15 +26,25 @@ Proof. intros Hb. destruct a; [destruct b; [congruence | reflexivity] | reflexiv
 Lemma Wv_sub_punct_g ks1 ks2 t1 g t2 :
   Wv ks1 t1 -> ends_e ks1 -> Wv ks2 t2 -> punct (hdk ks2) = true -> forallb gapc g = true -> Wv (ks1 ++ ks2) (t1 ++ gp g ++ t2).
 Proof.
-  intros H1 [_ He] H2 Hp Hg. apply Wv_app; [exact H1 | exact H2|]. unfold sepok, gp. rewrite Hg. cbn [andb].
-  rewrite (glue_end_punct _ _ (Wv_last_nice ks1 t1 H1) He Hp). apply orb_true_r.
+  intros H1 [_ He] H2 Hp Hg. apply Wv_app; [exact H1 | exact H2|]. unfold sepok, gp. rewrite Hg, (Wv_last ks1 t1 H1). cbn [andb].
+  rewrite (glue_end_punct _ _ (Wv_last_valid ks1 t1 H1) He Hp). apply orb_true_r.
 Qed.
 
 Lemma Wv_tok_closed_g k ks g t : closedk k = true -> Wv ks t -> forallb gapc g = true -> Wv (k :: ks) (sh k ++ gp g ++ t).
 Proof.
   intros Hk H Hg. apply (Wv_app [k] ks (sh k) g t); [apply Wv_one; apply closedk_nice; exact Hk | exact H|].
-  unfold sepok, gp. rewrite Hg. cbn [andb]. cbn [lastk last]. rewrite (glue_closed k _ Hk (Wv_hd_nice ks t H)). apply orb_true_r.
+  unfold sepok, gp. rewrite Hg. cbn [andb]. cbn [lastk last]. rewrite (glue_closed k _ Hk (Wv_hd_valid ks t H)).
+  destruct k; try discriminate Hk; cbn [is_comment]; apply orb_true_r.
 Qed.
+
+(* split a boolean conjunction hypothesis, emptying the slots that must be empty *)
+Ltac lo_split H :=
+  repeat match type of H with
+         | _ && _ = true => let H' := fresh "L" in apply andb_true_iff in H; destruct H as [H H']
+         end;
+  repeat match goal with
+         | H0 : is_nil ?c = true |- _ => apply is_nil_eq in H0; subst c
+         end.
 
 Section Prog.
 Variable f : fopts.
@@ -66,33 +79,37 @@ Lemma fmt_vardecls_cons v r toks :
   fmt_vardecls (v :: r) toks = (do a <- vardecl_fn toks v; do b <- fmt_vardecls r toks; FOk (a ++ b)).
 Proof. reflexivity. Qed.
 
+Definition lo_vardecl (v : avardecl) : bool :=
+  forallb nice (KVar :: cm (v_c2 v) ++ Ident (v_x v) :: cm (v_c3 v) ++ Colon :: fl_type (v_t v) ++ cm (v_c4 v) ++ [Semic]).
+
 Lemma vardecl_prints v toks off :
-  forallb nice (fl_vardecl v) = true -> At toks off (fl_vardecl v) ->
+  lo_vardecl v = true -> forallb valid_kind (fl_vardecl v) = true -> At toks off (fl_vardecl v) ->
   exists t, vardecl_fn toks (x_vardecl v, off) = FOk (t ++ [10%N]) /\ Wv (fl_vardecl v) t.
 Proof.
-  intros Hn H. unfold vardecl_fn. cbn [fst snd].
+  intros Hlo Hv H. unfold vardecl_fn. cbn [fst snd].
   match goal with |- context [with_from off toks ?K] =>
     destruct (with_from_At toks off 0 (fl_vardecl v) K) as [E A0]; [at_solve|]; rewrite E end.
-  clear E H. pose proof A0 as H0. pose proof Hn as Hn0. destruct v as [c1 c2 x c3 t c4].
-  unfold fl_vardecl in Hn, A0. cbn [v_c1 v_c2 v_x v_c3 v_t v_c4] in Hn, A0. nice_split.
+  clear E H. pose proof A0 as H0. destruct v as [c1 c2 x c3 t c4].
+  unfold lo_vardecl in Hlo. unfold fl_vardecl in Hv, A0. cbn [v_c1 v_c2 v_x v_c3 v_t v_c4] in Hlo, Hv, A0.
+  pose proof (Hlo : id _) as Hlo0. nice_split. unfold id in Hlo0. valid_split.
   unfold x_vardecl, x_ident. cbn [v_c1 v_c2 v_x v_c3 v_t v_c4]. cbn [cm map app length] in *.
   rewrite fmt_vardecl_eq. cbn [id_val vardecl_info]. at_split.
-  destruct (ref_type_ok t (skipn off toks) (0 + 1 + 0 + 1 + 0 + 1) ltac:(assumption) ltac:(at_solve)) as (s & Es & Ws).
-  rewrite Es. cbn [fbind]. rewrite (finish_all _ 0 _ _ _ H0 Hn0 eq_refl). nl_split.
-  unfold fl_vardecl. cbn [v_c1 v_c2 v_x v_c3 v_t v_c4 cm map app]. wv2.
+  destruct (ref_type_ok t (skipn off toks) (length c1 + 1 + 0 + 1 + 0 + 1) ltac:(assumption) ltac:(at_solve)) as (s & Es & Ws).
+  rewrite Es. cbn [fbind]. rewrite (finish_all _ 0 _ _ c1 _ _ H0 eq_refl Hlo0 eq_refl). nl_split.
+  unfold fl_vardecl. cbn [v_c1 v_c2 v_x v_c3 v_t v_c4 cm map app]. apply (Wv_lead c1); [assumption | wv2].
 Qed.
 
 Lemma vardecls_prints l : forall toks o,
-  forallb nice (flat_map fl_vardecl l) = true -> At toks o (flat_map fl_vardecl l) ->
+  forallb lo_vardecl l = true -> forallb valid_kind (flat_map fl_vardecl l) = true -> At toks o (flat_map fl_vardecl l) ->
   match l with
   | [] => fmt_vardecls (x_vardecls o l) toks = FOk []
   | _ :: _ => exists t, fmt_vardecls (x_vardecls o l) toks = FOk (t ++ [10%N]) /\ Wv (flat_map fl_vardecl l) t
   end.
 Proof.
-  induction l as [|v r IH]; intros toks o Hn H; [reflexivity|].
-  cbn [flat_map] in Hn, H. nice_split. at_split. cbn [x_vardecls]. rewrite fmt_vardecls_cons.
-  destruct (vardecl_prints v toks o ltac:(assumption) ltac:(at_solve)) as (t1 & E1 & W1). rewrite E1. cbn [fbind].
-  pose proof (IH toks (o + length (fl_vardecl v)) ltac:(assumption) ltac:(at_solve)) as IH2.
+  induction l as [|v r IH]; intros toks o Hlo Hv H; [reflexivity|].
+  cbn [forallb] in Hlo. lo_split Hlo. cbn [flat_map] in Hv, H. valid_split. at_split. cbn [x_vardecls]. rewrite fmt_vardecls_cons.
+  destruct (vardecl_prints v toks o ltac:(assumption) ltac:(assumption) ltac:(at_solve)) as (t1 & E1 & W1). rewrite E1. cbn [fbind].
+  pose proof (IH toks (o + length (fl_vardecl v)) ltac:(assumption) ltac:(assumption) ltac:(at_solve)) as IH2.
   destruct r as [|v2 r2].
   - cbn [x_vardecls]. rewrite fmt_vardecls_nil. cbn [fbind]. exists t1. split; [rewrite app_nil_r; reflexivity|].
     cbn [flat_map]. rewrite app_nil_r. exact W1.
@@ -122,22 +139,47 @@ Definition param_fn (toks : list token) (p : paramdecl * nat) : fres :=
 Lemma ends_param p : ends_e (fl_param p).
 Proof. destruct p; cbn [fl_param]; repeat first [apply ends_type | apply ends_app | apply ends_cons]. Qed.
 
-Lemma param_prints toks p : elem_ok fl_param x_param toks (param_fn toks) p.
+Definition lo_param (p : aparam) : bool :=
+  match p with
+  | PVal _ x cc t => forallb nice (Ident x :: cm cc ++ Colon :: fl_type t)
+  | PRef _ c x cc t => forallb nice (KRef :: cm c ++ Ident x :: cm cc ++ Colon :: fl_type t)
+  end.
+
+Definition param_okp (p : aparam) : Prop := lo_param p = true /\ forallb valid_kind (fl_param p) = true.
+
+Lemma param_prints toks p : elem_ok fl_param x_param toks (param_fn toks) param_okp p.
 Proof.
-  intros off Hn H. unfold param_fn. cbn [fst snd].
+  intros off [Hlo Hv] H. unfold param_fn. cbn [fst snd].
   match goal with |- context [with_from off toks ?K] =>
     destruct (with_from_At toks off 0 (fl_param p) K) as [E A0]; [at_solve|]; rewrite E end.
-  clear E H. pose proof A0 as H0. pose proof Hn as Hn0. destruct p as [c x cc t|cr c x cc t].
-  - cbn [fl_param] in Hn, A0. nice_split. cbn [x_param]. unfold x_ident. cbn [cm map app length] in *.
+  clear E H. pose proof A0 as H0. destruct p as [c x cc t|cr c x cc t].
+  - cbn [lo_param] in Hlo. cbn [fl_param] in Hv, A0. pose proof (Hlo : id _) as Hlo0. nice_split. unfold id in Hlo0. valid_split.
+    cbn [x_param]. unfold x_ident. cbn [cm map app length] in *.
     rewrite fmt_paramdecl_val. cbn [id_val paramdecl_info]. at_split.
-    destruct (ref_type_ok t (skipn off toks) (0 + 1 + 0 + 1) ltac:(assumption) ltac:(at_solve)) as (s & Es & Ws).
-    rewrite Es. cbn [fbind]. rewrite (finish_all _ 0 _ _ _ H0 Hn0 eq_refl). eexists. split; [reflexivity|].
-    cbn [fl_param cm map app]. wv2.
-  - cbn [fl_param] in Hn, A0. nice_split. cbn [x_param]. unfold x_ident. cbn [cm map app length] in *.
+    destruct (ref_type_ok t (skipn off toks) (length c + 1 + 0 + 1) ltac:(assumption) ltac:(at_solve)) as (s & Es & Ws).
+    rewrite Es. cbn [fbind]. rewrite (finish_all _ 0 _ _ c _ _ H0 eq_refl Hlo0 eq_refl). eexists. split; [reflexivity|].
+    cbn [fl_param cm map app]. apply (Wv_lead c); [assumption | wv2].
+  - cbn [lo_param] in Hlo. cbn [fl_param] in Hv, A0. pose proof (Hlo : id _) as Hlo0. nice_split. unfold id in Hlo0. valid_split.
+    cbn [x_param]. unfold x_ident. cbn [cm map app length] in *.
     rewrite fmt_paramdecl_ref. cbn [id_val paramdecl_info]. at_split.
-    destruct (ref_type_ok t (skipn off toks) (0 + 1 + 0 + 1 + 0 + 1) ltac:(assumption) ltac:(at_solve)) as (s & Es & Ws).
-    rewrite Es. cbn [fbind]. rewrite (finish_all _ 0 _ _ _ H0 Hn0 eq_refl). eexists. split; [reflexivity|].
-    cbn [fl_param cm map app]. wv2.
+    destruct (ref_type_ok t (skipn off toks) (length cr + 1 + 0 + 1 + 0 + 1) ltac:(assumption) ltac:(at_solve)) as (s & Es & Ws).
+    rewrite Es. cbn [fbind]. rewrite (finish_all _ 0 _ _ cr _ _ H0 eq_refl Hlo0 eq_refl). eexists. split; [reflexivity|].
+    cbn [fl_param cm map app]. apply (Wv_lead cr); [assumption | wv2].
+Qed.
+
+Definition lo_params (ps : aparams) : bool :=
+  match ps with
+  | None => true
+  | Some (p, l) => lo_param p && forallb (fun ca : cs * aparam => is_nil (fst ca) && lo_param (snd ca)) l
+  end.
+
+Lemma params_tail_okp l :
+  forallb (fun ca : cs * aparam => is_nil (fst ca) && lo_param (snd ca)) l = true ->
+  forallb valid_kind (fl_tail fl_param l) = true -> tail_okp param_okp l.
+Proof.
+  induction l as [|[c p] r IH]; intros Hlo Hv; [constructor|].
+  cbn [forallb fst snd] in Hlo. lo_split Hlo. rewrite fl_tail_cons in Hv. cbn [cm map app] in Hv. valid_split.
+  constructor; [split; [reflexivity | split; assumption] | apply IH; assumption].
 Qed.
 
 Lemma fmt_params_eq ps toks :
@@ -153,13 +195,15 @@ Proof. reflexivity. Qed.
 
 (* the parameter list between "(" and whatever follows it (the ")"): one line, or one parameter per line *)
 Lemma params_prints ps toks o :
-  forallb nice (fl_sep fl_param ps) = true -> At toks o (fl_sep fl_param ps) ->
+  lo_params ps = true -> forallb valid_kind (fl_sep fl_param ps) = true -> At toks o (fl_sep fl_param ps) ->
   exists ptxt, fmt_params f (x_sep fl_param x_param o ps) toks = FOk ptxt /\
     forall ks2 t2, Wv ks2 t2 -> punct (hdk ks2) = true -> Wv (LParen :: fl_sep fl_param ps ++ ks2) (sh LParen ++ ptxt ++ t2).
 Proof.
-  intros Hn H. rewrite fmt_params_eq. destruct ps as [[p l]|].
-  - destruct (sep_prints fl_param x_param toks (param_fn toks) ends_param p l (param_prints toks p)
-                ltac:(apply Forall_forall; intros; apply param_prints) o Hn H) as (t & ts & Ets & _ & Wts).
+  intros Hlo Hv H. rewrite fmt_params_eq. destruct ps as [[p l]|].
+  - cbn [lo_params] in Hlo. lo_split Hlo. cbn [fl_sep] in Hv. apply valid_app in Hv. destruct Hv as [Hvp Hvl].
+    destruct (sep_prints fl_param x_param toks (param_fn toks) param_okp ends_param p l (param_prints toks p)
+                ltac:(apply Forall_forall; intros; apply param_prints) o (conj Hlo Hvp) (params_tail_okp l ltac:(assumption) Hvl) H)
+      as (t & ts & Ets & _ & Wts).
     rewrite Ets. destruct (Nat.ltb 3 (length (t :: ts)) || existsb contains_slashes (t :: ts)).
     + pose proof (Wts [10%N] eq_refl ltac:(discriminate)) as W.
       pose proof (indent_Wv f sym_ok _ _ W) as Ei.
@@ -222,65 +266,77 @@ Lemma shape3 (a u m u2 m2 b : text) :
   a ++ gp (10%N :: u) ++ m ++ gp (10%N :: 10%N :: u2) ++ m2 ++ gp [10%N] ++ b.
 Proof. reflexivity. Qed.
 
+Definition lo_decl (d : adecl) : bool :=
+  match d with
+  | DType _ c2 x c3 t c4 => forallb nice (KType :: cm c2 ++ Ident x :: cm c3 ++ EqT :: fl_type t ++ cm c4 ++ [Semic])
+  | DProc _ c2 x c3 ps c4 c5 vs b c6 =>
+      forallb nice (KProc :: cm c2 ++ Ident x :: cm c3 ++ [LParen]) && lo_params ps && is_nil c4 && is_nil c5
+      && forallb lo_vardecl vs && lo_stmts b && is_nil c6
+  end.
+
 Lemma decl_prints d toks off :
-  forallb nice (fl_decl d) = true -> At toks off (fl_decl d) ->
+  lo_decl d = true -> forallb valid_kind (fl_decl d) = true -> At toks off (fl_decl d) ->
   exists t, decl_fn toks (x_decl d, off) = FOk (t ++ [10%N]) /\ Wv (fl_decl d) t.
 Proof.
-  intros Hn H. unfold decl_fn. cbn [fst snd].
+  intros Hlo Hv H. unfold decl_fn. cbn [fst snd].
   match goal with |- context [with_from off toks ?K] =>
     destruct (with_from_At toks off 0 (fl_decl d) K) as [E A0]; [at_solve|]; rewrite E end.
-  clear E H. pose proof A0 as H0. pose proof Hn as Hn0.
+  clear E H. pose proof A0 as H0.
   pose proof (nl_unit_gap f sym_ok) as Gu.
   assert (Gu2 : forallb gapc (10%N :: 10%N :: unit) = true) by (cbn [forallb] in *; exact Gu).
   destruct d as [c1 c2 x c3 t c4|c1 c2 x c3 ps c4 c5 vs b c6].
-  - cbn [fl_decl] in Hn, A0. nice_split. cbn [x_decl fmt_gdecl]. unfold x_ident. cbn [cm map app length] in *.
+  - cbn [lo_decl] in Hlo. cbn [fl_decl] in Hv, A0. nice_split. cbn [cm map app] in Hv. valid_split.
+    cbn [x_decl fmt_gdecl]. unfold x_ident. cbn [cm map app length] in *.
     rewrite fmt_typedecl_eq. cbn [id_val]. at_split.
-    destruct (ref_type_ok t (skipn off toks) (0 + 1 + 0 + 1 + 0 + 1) ltac:(assumption) ltac:(at_solve)) as (s & Es & Ws).
-    rewrite Es. cbn [fbind]. rewrite (finish_leading _ 0 _ _ _ H0 Hn0 eq_refl). nl_split.
-    cbn [fl_decl cm map app]. wv2.
-  - cbn [fl_decl] in Hn, A0. nice_split. cbn [x_decl fmt_gdecl]. cbv zeta. unfold x_ident. cbn [cm map app length] in *.
+    destruct (ref_type_ok t (skipn off toks) (length c1 + 1 + 0 + 1 + 0 + 1) ltac:(assumption) ltac:(at_solve)) as (s & Es & Ws).
+    rewrite Es. cbn [fbind]. rewrite (finish_leading _ 0 _ _ c1 KType _ _ H0 eq_refl eq_refl eq_refl). nl_split.
+    cbn [fl_decl cm map app]. apply (Wv_lead c1); [assumption | wv2].
+  - cbn [lo_decl] in Hlo. lo_split Hlo. nice_split. cbn [fl_decl] in Hv, A0. cbn [cm map app] in Hv, A0. valid_split.
+    cbn [x_decl fmt_gdecl]. cbv zeta. unfold x_ident. cbn [cm map app length] in *.
     rewrite fmt_procdecl_eq. cbn [id_val]. at_split.
-    destruct (params_prints ps (skipn off toks) (0 + 1 + 0 + 1 + 0 + 1) ltac:(assumption) ltac:(at_solve)) as (ptxt & Ep & Wp).
+    destruct (params_prints ps (skipn off toks) (length c1 + 1 + 0 + 1 + 0 + 1) ltac:(assumption) ltac:(assumption) ltac:(at_solve))
+      as (ptxt & Ep & Wp).
     rewrite Ep. cbn [fbind].
-    pose proof (vardecls_prints vs (skipn off toks) (0 + 1 + 0 + 1 + 0 + 1 + length (fl_sep fl_param ps) + 0 + 1 + 0 + 1)
-                  ltac:(assumption) ltac:(at_solve)) as IHv.
+    pose proof (vardecls_prints vs (skipn off toks) (length c1 + 1 + 0 + 1 + 0 + 1 + length (fl_sep fl_param ps) + 0 + 1 + 0 + 1)
+                  ltac:(assumption) ltac:(assumption) ltac:(at_solve)) as IHv.
     pose proof (stmts_prints f sym_ok b (skipn off toks)
-                  (0 + 1 + 0 + 1 + 0 + 1 + length (fl_sep fl_param ps) + 0 + 1 + 0 + 1 + length (flat_map fl_vardecl vs))
-                  ltac:(assumption) ltac:(at_solve)) as IHs.
+                  (length c1 + 1 + 0 + 1 + 0 + 1 + length (fl_sep fl_param ps) + 0 + 1 + 0 + 1 + length (flat_map fl_vardecl vs))
+                  ltac:(assumption) ltac:(assumption) ltac:(at_solve)) as IHs.
     destruct vs as [|v vs']; destruct b as [|s r].
-    + rewrite IHv. cbn [fbind]. rewrite IHs. cbn [fbind]. rewrite (finish_leading _ 0 _ _ _ H0 Hn0 eq_refl).
+    + rewrite IHv. cbn [fbind]. rewrite IHs. cbn [fbind].
+      rewrite (finish_leading _ 0 _ _ c1 KProc _ _ H0 eq_refl eq_refl eq_refl).
       unfold proc_text. change (indent [] f) with (@nil char). cbv zeta. cbn [is_nil]. nl_split.
-      cbn [fl_decl fl_stmts flat_map cm map app].
+      cbn [fl_decl fl_stmts flat_map cm map app]. apply (Wv_lead c1); [assumption|].
       apply Wv_tok_sp; [reflexivity | | reflexivity | discriminate].
       apply Wv_tok_punct; [assumption | reflexivity | | reflexivity].
       apply Wp; [wv2 | reflexivity].
     + rewrite IHv. cbn [fbind]. destruct IHs as (ts & Es & Ws). rewrite Es. cbn [fbind].
-      rewrite (finish_leading _ 0 _ _ _ H0 Hn0 eq_refl).
+      rewrite (finish_leading _ 0 _ _ c1 KProc _ _ H0 eq_refl eq_refl eq_refl).
       unfold proc_text. change (indent [] f) with (@nil char). rw_indent_nl Ws. cbv zeta.
       rewrite is_nil_app_ne by (intros E; apply app_eq_nil in E; destruct E as [_ E]; discriminate E). cbn [is_nil].
       rewrite <- ?app_assoc. rewrite (shape2 (sh LCurly) unit). nl_split.
       pose proof (Wv_unit f sym_ok _ _ Ws) as Ws'.
-      cbn [fl_decl flat_map cm map app].
+      cbn [fl_decl flat_map cm map app]. apply (Wv_lead c1); [assumption|].
       apply Wv_tok_sp; [reflexivity | | reflexivity | discriminate].
       apply Wv_tok_punct; [assumption | reflexivity | | reflexivity].
       apply Wp; [wv2 | reflexivity].
     + destruct IHv as (tv & Ev & Wvd). rewrite Ev. cbn [fbind]. rewrite IHs. cbn [fbind].
-      rewrite (finish_leading _ 0 _ _ _ H0 Hn0 eq_refl).
+      rewrite (finish_leading _ 0 _ _ c1 KProc _ _ H0 eq_refl eq_refl eq_refl).
       unfold proc_text. change (indent [] f) with (@nil char). rw_indent_nl Wvd. cbv zeta.
       rewrite is_nil_app_ne by (intros E; apply app_eq_nil in E; destruct E as [_ E]; discriminate E). cbn [is_nil].
       rewrite <- ?app_assoc. rewrite (shape2 (sh LCurly) unit). nl_split.
       pose proof (Wv_unit f sym_ok _ _ Wvd) as Wvd'.
-      cbn [fl_decl fl_stmts cm map app].
+      cbn [fl_decl fl_stmts cm map app]. apply (Wv_lead c1); [assumption|].
       apply Wv_tok_sp; [reflexivity | | reflexivity | discriminate].
       apply Wv_tok_punct; [assumption | reflexivity | | reflexivity].
       apply Wp; [wv2 | reflexivity].
     + destruct IHv as (tv & Ev & Wvd). rewrite Ev. cbn [fbind]. destruct IHs as (ts & Es & Ws). rewrite Es. cbn [fbind].
-      rewrite (finish_leading _ 0 _ _ _ H0 Hn0 eq_refl).
+      rewrite (finish_leading _ 0 _ _ c1 KProc _ _ H0 eq_refl eq_refl eq_refl).
       unfold proc_text. rw_indent_nl Wvd. rw_indent_nl Ws. cbv zeta.
       rewrite !is_nil_app_ne by (intros E; apply app_eq_nil in E; destruct E as [_ E]; discriminate E).
       rewrite <- ?app_assoc. rewrite (shape3 (sh LCurly) unit _ unit). nl_split.
       pose proof (Wv_unit f sym_ok _ _ Wvd) as Wvd'. pose proof (Wv_unit f sym_ok _ _ Ws) as Ws'.
-      cbn [fl_decl cm map app].
+      cbn [fl_decl cm map app]. apply (Wv_lead c1); [assumption|].
       apply Wv_tok_sp; [reflexivity | | reflexivity | discriminate].
       apply Wv_tok_punct; [assumption | reflexivity | | reflexivity].
       apply Wp; [wv2 | reflexivity].
@@ -293,18 +349,18 @@ Lemma fmt_program_eq p toks : fmt_program f p toks = fmap (decl_fn toks) (pg_dec
 Proof. reflexivity. Qed.
 
 Lemma decls_print l : forall toks o,
-  forallb nice (flat_map fl_decl l) = true -> At toks o (flat_map fl_decl l) ->
+  forallb lo_decl l = true -> forallb valid_kind (flat_map fl_decl l) = true -> At toks o (flat_map fl_decl l) ->
   exists ts, (forall k, fmap (decl_fn toks) (x_decls o l) k = k ts) /\
              match l with
              | [] => ts = []
              | _ :: _ => exists t, join [10%N] ts = t ++ [10%N] /\ Wv (flat_map fl_decl l) t
              end.
 Proof.
-  induction l as [|d r IH]; intros toks o Hn H.
+  induction l as [|d r IH]; intros toks o Hlo Hv H.
   - exists []. split; [reflexivity | reflexivity].
-  - cbn [flat_map] in Hn, H. nice_split. at_split.
-    destruct (decl_prints d toks o ltac:(assumption) ltac:(at_solve)) as (t1 & E1 & W1).
-    destruct (IH toks (o + length (fl_decl d)) ltac:(assumption) ltac:(at_solve)) as (ts & Ets & Hts).
+  - cbn [forallb] in Hlo. lo_split Hlo. cbn [flat_map] in Hv, H. valid_split. at_split.
+    destruct (decl_prints d toks o ltac:(assumption) ltac:(assumption) ltac:(at_solve)) as (t1 & E1 & W1).
+    destruct (IH toks (o + length (fl_decl d)) ltac:(assumption) ltac:(assumption) ltac:(at_solve)) as (ts & Ets & Hts).
     exists ((t1 ++ [10%N]) :: ts). split.
     + intros k. cbn [x_decls]. rewrite fmap_cons, E1. cbn [fbind]. apply Ets.
     + destruct r as [|d2 r2].
@@ -321,6 +377,10 @@ End Prog.
 (* ================================================================================================
    5. The theorems
    ================================================================================================ *)
+(* comments only in leading position: doc comments of type / procedure / variable declarations and parameters, leading
+   comments of statements (not of a block that is the branch of an if / while); nowhere else, none in front of EOF *)
+Definition lead_only (p : aprog) : bool := forallb lo_decl (a_decls p) && is_nil (a_ceof p).
+
 (* no comment anywhere in the program: every comment slot of the abstract syntax is empty *)
 Definition comment_free (p : aprog) : bool := forallb (fun k => negb (is_comment k)) (flatten p).
 
@@ -332,6 +392,76 @@ Definition unit_ok (f : fopts) : Prop := (ind_sym f = 32 \/ ind_sym f = 9)%N.
 Lemma options_unit_ok ins ts : unit_ok (options_of ins ts).
 Proof. unfold unit_ok, options_of. destruct ins; cbn [ind_sym]; [left | right]; reflexivity. Qed.
 
+(* A4: with comments in leading position only, the formatter prints exactly the program's tokens - the comments among
+   them, each exactly once, as "// " + trimmed text + LF - in order, separated by admissible whitespace only *)
+Theorem structure_lead p toks f :
+  unit_ok f -> lead_only p = true -> aprog_valid p = true -> map tk toks = flatten p ++ [Eof] ->
+  exists txt gaps,
+    fmt_program f (expected p) toks = FOk txt /\
+    txt = weave gaps (map show_kind (flatten p)) /\
+    gaps_ok (flatten p) gaps /\
+    Forall (fun g => forallb is_ws g = true) gaps /\
+    hd [] gaps = [] /\ (flatten p <> [] -> last gaps [] = [10%N]).
+Proof.
+  intros Hf Hlo Hv Hk. unfold lead_only in Hlo. apply andb_true_iff in Hlo. destruct Hlo as [Hlo Hn2]. apply is_nil_eq in Hn2.
+  unfold aprog_valid in Hv.
+  assert (Hfl : flatten p = flat_map fl_decl (a_decls p)) by (unfold flatten; rewrite Hn2; apply app_nil_r).
+  rewrite Hfl in Hv, Hk.
+  destruct (decls_print f Hf (a_decls p) toks 0 Hlo Hv (At_whole toks _ _ Hk)) as (ts & Ets & Hts).
+  rewrite fmt_program_eq. unfold expected. cbn [pg_decls]. rewrite Ets. rewrite Hfl.
+  destruct (a_decls p) as [|d r].
+  - subst ts. exists [], [[]]. repeat split; try reflexivity; try (repeat constructor). intros E. exfalso. apply E. reflexivity.
+  - destruct Hts as (t & E & W). rewrite E.
+    destruct (Wv_layout _ t [] [10%N] W eq_refl eq_refl) as (gaps & Eg & Hg & H1 & H2 & H3).
+    exists (t ++ [10%N]), gaps. split; [reflexivity|]. split; [exact Eg|]. split; [exact Hg|]. split; [exact H3|].
+    split; [exact H1|]. intros _. exact H2.
+Qed.
+
+(* ... and the printed text lexes to these tokens, a comment with text s to the comment with text " " + trim s *)
+Theorem tokens_lead p toks f txt :
+  unit_ok f -> lead_only p = true -> aprog_valid p = true -> map tk toks = flatten p ++ [Eof] ->
+  fmt_program f (expected p) toks = FOk txt ->
+  exists toks', lex txt = Some toks' /\ map tk toks' = map canon (flatten p) ++ [Eof] /\ Forall (fun t => terr t = []) toks'.
+Proof.
+  intros Hf Hc Hv Hk Ht. destruct (structure_lead p toks f Hf Hc Hv Hk) as (txt' & gaps & E & -> & Hg & _).
+  rewrite E in Ht. injection Ht as <-.
+  apply show_layout_lexes; [exact Hv | exact Hg].
+Qed.
+
+(* a comment-free program has its comments in leading position only *)
+Lemma nice_lo_vardecl v : forallb nice (fl_vardecl v) = true -> lo_vardecl v = true.
+Proof. unfold fl_vardecl, lo_vardecl. intros H. apply nice_cm in H. tauto. Qed.
+
+Lemma nice_lo_param p : forallb nice (fl_param p) = true -> lo_param p = true.
+Proof. destruct p; cbn [fl_param lo_param]; intros H; apply nice_cm in H; tauto. Qed.
+
+Lemma nice_lo_params ps : forallb nice (fl_sep fl_param ps) = true -> lo_params ps = true.
+Proof.
+  destruct ps as [[p l]|]; [|reflexivity]. cbn [fl_sep lo_params]. intros H. apply nice_app in H. destruct H as [Hp Hl].
+  rewrite (nice_lo_param p Hp). cbn [andb]. induction l as [|[c q] r IH]; [reflexivity|].
+  rewrite fl_tail_cons in Hl. nice_split. cbn [forallb fst snd is_nil andb]. rewrite (nice_lo_param q) by assumption. apply IH. assumption.
+Qed.
+
+Lemma nice_lo_decl d : forallb nice (fl_decl d) = true -> lo_decl d = true.
+Proof.
+  destruct d as [c1 c2 x c3 t c4|c1 c2 x c3 ps c4 c5 vs b c6]; cbn [fl_decl lo_decl]; intros H.
+  - apply nice_cm in H. tauto.
+  - nice_split. cbn [cm map app forallb is_nil]. rewrite (nice_lo_params ps) by assumption.
+    rewrite (proj2 nice_lo b) by assumption.
+    repeat match goal with N : nice _ = true |- _ => rewrite N; clear N end. cbn [andb]. rewrite !andb_true_r.
+    match goal with N : forallb nice (flat_map fl_vardecl vs) = true |- _ => revert N end. clear.
+    induction vs as [|v r IH]; [reflexivity|]. cbn [flat_map forallb]. intros H. apply nice_app in H. destruct H as [Hv Hr].
+    rewrite (nice_lo_vardecl v Hv). apply IH. exact Hr.
+Qed.
+
+Lemma comment_free_lead_only p : comment_free p = true -> aprog_valid p = true -> lead_only p = true.
+Proof.
+  intros Hc Hv. pose proof (comment_free_nice p Hc Hv) as Hn. unfold flatten in Hn. apply nice_app in Hn. destruct Hn as [Hn Hn2].
+  apply nice_cm0 in Hn2. unfold lead_only. rewrite Hn2. cbn [is_nil]. rewrite andb_true_r.
+  induction (a_decls p) as [|d r IH]; [reflexivity|]. cbn [flat_map forallb] in *. apply nice_app in Hn. destruct Hn as [Hd Hr].
+  rewrite (nice_lo_decl d Hd). apply IH. exact Hr.
+Qed.
+
 (* A1: the formatter prints exactly the program's tokens, as Display spells them, in order, separated by admissible
    whitespace only *)
 Theorem structure p toks f :
@@ -342,20 +472,7 @@ Theorem structure p toks f :
     gaps_ok (flatten p) gaps /\
     Forall (fun g => forallb is_ws g = true) gaps /\
     hd [] gaps = [] /\ (flatten p <> [] -> last gaps [] = [10%N]).
-Proof.
-  intros Hf Hc Hv Hk. pose proof (comment_free_nice p Hc Hv) as Hn. unfold flatten in Hn, Hk.
-  apply nice_app in Hn. destruct Hn as [Hn Hn2]. apply nice_cm0 in Hn2.
-  assert (Hfl : flatten p = flat_map fl_decl (a_decls p)) by (unfold flatten; rewrite Hn2; apply app_nil_r).
-  rewrite Hn2 in Hk. cbn [cm map] in Hk. rewrite app_nil_r in Hk.
-  destruct (decls_print f Hf (a_decls p) toks 0 Hn (At_whole toks _ _ Hk)) as (ts & Ets & Hts).
-  rewrite fmt_program_eq. unfold expected. cbn [pg_decls]. rewrite Ets. rewrite Hfl.
-  destruct (a_decls p) as [|d r].
-  - subst ts. exists [], [[]]. repeat split; try reflexivity; try (repeat constructor). intros E. exfalso. apply E. reflexivity.
-  - destruct Hts as (t & E & W). rewrite E.
-    destruct (Wv_layout _ t [] [10%N] W eq_refl eq_refl) as (gaps & Eg & Hg & H1 & H2 & H3).
-    exists (t ++ [10%N]), gaps. split; [reflexivity|]. split; [exact Eg|]. split; [exact Hg|]. split; [exact H3|].
-    split; [exact H1|]. intros _. exact H2.
-Qed.
+Proof. intros Hf Hc Hv Hk. apply structure_lead; try assumption. apply comment_free_lead_only; assumption. Qed.
 
 (* A2: the printed text lexes back to the program's tokens: same kinds, same values, no lexical error *)
 Theorem tokens p toks f txt :
@@ -363,9 +480,9 @@ Theorem tokens p toks f txt :
   fmt_program f (expected p) toks = FOk txt ->
   exists toks', lex txt = Some toks' /\ map tk toks' = flatten p ++ [Eof] /\ Forall (fun t => terr t = []) toks'.
 Proof.
-  intros Hf Hc Hv Hk Ht. destruct (structure p toks f Hf Hc Hv Hk) as (txt' & gaps & E & -> & Hg & _).
-  rewrite E in Ht. injection Ht as <-.
-  apply show_layout_lexes; [apply comment_free_nice; assumption | exact Hg].
+  intros Hf Hc Hv Hk Ht.
+  destruct (tokens_lead p toks f txt Hf (comment_free_lead_only p Hc Hv) Hv Hk Ht) as (toks' & E1 & E2 & E3).
+  exists toks'. rewrite (map_canon_nice _ (comment_free_nice p Hc Hv)) in E2. repeat split; assumption.
 Qed.
 
 (* A3: formatting the printed text again answers null *)
@@ -399,6 +516,90 @@ Proof.
   - exact (idempotent_comment_free p toks ins ts txt Hok Hc Hv Hk E).
 Qed.
 
+(* ---- trimming a trimmed text ---- *)
+Lemma trim_start_fix l : match l with [] => True | x :: _ => is_unicode_ws x = false end -> trim_start l = l.
+Proof. destruct l as [|x l]; [reflexivity|]. cbn [trim_start]. intros ->. reflexivity. Qed.
+
+Lemma trim_start_suffix l : exists pre, l = pre ++ trim_start l.
+Proof.
+  induction l as [|x l [pre E]]; [exists []; reflexivity|]. cbn [trim_start]. destruct (is_unicode_ws x).
+  - exists (x :: pre). cbn [app]. f_equal. exact E.
+  - exists []. reflexivity.
+Qed.
+
+Lemma trim_head s : match trim s with [] => True | x :: _ => is_unicode_ws x = false end.
+Proof.
+  unfold trim. destruct (trim_start_suffix (rev (trim_start s))) as [pre E].
+  set (b := trim_start (rev (trim_start s))) in *.
+  assert (Ea : trim_start s = rev b ++ rev pre).
+  { rewrite <- (rev_involutive (trim_start s)), E, rev_app_distr. reflexivity. }
+  pose proof (trim_start_head s) as H. rewrite Ea in H. destruct (rev b) as [|x r]; [exact I | exact H].
+Qed.
+
+Lemma trim_trim s : trim (32%N :: trim s) = trim s.
+Proof.
+  pose proof (trim_head s) as Hh. pose proof (trim_last s) as Hl. set (t := trim s) in *.
+  unfold trim. change (trim_start (32%N :: t)) with (trim_start t). rewrite (trim_start_fix t Hh).
+  rewrite trim_start_fix; [apply rev_involutive|].
+  destruct t as [|z t'] using rev_ind; [exact I|]. rewrite rev_app_distr. cbn [rev app].
+  destruct Hl as [E|E]; [destruct t'; discriminate E|]. rewrite LexConformOne.last_app_single in E. exact E.
+Qed.
+
+Lemma canon_code ks :
+  filter (fun k => match k with Comment _ => false | _ => true end) (map canon ks)
+  = filter (fun k => match k with Comment _ => false | _ => true end) ks.
+Proof. induction ks as [|k ks IH]; [reflexivity|]. cbn [map filter]. destruct k; cbn [canon]; rewrite IH; reflexivity. Qed.
+
+Lemma canon_bodies (toks toks' : list token) :
+  map tk toks' = map canon (map tk toks) -> comment_bodies toks' = comment_bodies toks.
+Proof.
+  revert toks'. induction toks as [|t toks IH]; intros toks' H.
+  - destruct toks'; [reflexivity | discriminate H].
+  - destruct toks' as [|t' toks']; [discriminate H|]. cbn [map] in H. injection H as Ht H.
+    unfold comment_bodies. cbn [flat_map]. fold (comment_bodies toks'). fold (comment_bodies toks).
+    rewrite (IH toks' H), Ht. destruct (tk t); cbn [canon]; try reflexivity. rewrite trim_trim. reflexivity.
+Qed.
+
+(* from a document that is a layout of a valid program with comments in leading position only: the formatted text has
+   the same non-comment tokens (kinds and values) and the same comments (trimmed texts, in order, each exactly once) *)
+Theorem document_lead p doc toks ins ts :
+  prog_ok p = true -> lead_only p = true -> aprog_valid p = true ->
+  lex doc = Some toks -> map tk toks = flatten p ++ [Eof] ->
+  exists txt toks',
+    formatted_text doc ins ts = Done txt /\ lex txt = Some toks' /\
+    code_kinds toks' = code_kinds toks /\ comment_bodies toks' = comment_bodies toks /\
+    Forall (fun t => terr t = []) toks'.
+Proof.
+  intros Hok Hlo Hv El Hk.
+  destruct (structure_lead p toks _ (options_unit_ok ins ts) Hlo Hv Hk) as (txt & gaps & E & _).
+  destruct (tokens_lead p toks _ txt (options_unit_ok ins ts) Hlo Hv Hk E) as (toks' & El' & Ek' & Ee).
+  assert (Hc : map tk toks' = map canon (map tk toks)) by (rewrite Ek', Hk, map_app; reflexivity).
+  exists txt, toks'. split; [|split; [exact El' | split; [|split; [|exact Ee]]]].
+  - unfold formatted_text. rewrite El, (GrammarProg.roundtrip p toks Hok Hk), E. reflexivity.
+  - unfold code_kinds. rewrite Hc. apply canon_code.
+  - apply canon_bodies. exact Hc.
+Qed.
+
+(* what Display prints for a token: a lexeme of the same kind and value; the canonical spelling up to the zero padding of
+   one-digit hexadecimal literals *)
+Theorem spellings k : nice k = true ->
+  LexSpec.Lexeme k (show_kind k) /\
+  (show_kind k = spelling k \/
+   exists v a, k = HexT (IntOk v) /\ spelling k = [48; 120; a]%N /\ show_kind k = [48; 120; 48; a]%N).
+Proof. intros H. split; [apply show_lexeme; exact H | apply show_vs_spelling; exact H]. Qed.
+
+Theorem idempotent_document p doc toks ins ts :
+  prog_ok p = true -> comment_free p = true -> aprog_valid p = true ->
+  lex doc = Some toks -> map tk toks = flatten p ++ [Eof] ->
+  exists out, formatted_text doc ins ts = Done out /\ format_request out ins ts = Done None.
+Proof.
+  intros H1 H2 H3 H4 H5.
+  destruct (format_document p doc toks ins ts H1 H2 H3 H4 H5) as (txt & toks' & E & _ & _ & N). exists txt. split; assumption.
+Qed.
+
+Print Assumptions document_lead.
+Print Assumptions structure_lead.
+Print Assumptions tokens_lead.
 Print Assumptions structure.
 Print Assumptions tokens.
 Print Assumptions idempotent_comment_free.
